@@ -126,8 +126,9 @@ func TestC02Search(t *testing.T) {
 		old := searcher.DisjunctionHeapTakeover
 		searcher.DisjunctionHeapTakeover = rapid.SampledFrom([]int{2, 10}).Draw(t, "heapTakeover")
 		defer func() { searcher.DisjunctionHeapTakeover = old }()
-		c := BuildCorpus(t, CorpusOpts{}.GenBig(t))
-		g := QGen{}
+		co := CorpusOpts{}.GenBig(t)
+		c := BuildCorpus(t, co)
+		g := QGen{IDs: co.IDs}
 		nq := 6
 		for qi := 0; qi < nq; qi++ {
 			var q *Q
